@@ -135,10 +135,12 @@ def collapse(toks):
 
 
 def numnorm(tok):
-    """A numeric literal by value: 1e3, 1000.0 and 1000. are one token; so are 2. and 2.0."""
+    """A numeric literal by value: 1e3, 1000.0 and 1000. are one token; so are 2. and 2.0, and 010 and 8."""
     m = re.match(r"^(\+\w+\()(.*)\)$", tok)
     if m:
         return m.group(1) + numnorm(m.group(2)) + ")"
+    if re.match(r"^0[0-7]+$", tok):
+        return str(int(tok, 8))  # a C octal literal is recorded (and rendered) by its value: 010 is 8
     if re.match(r"^\d+$", tok):
         return tok
     if re.match(r"^(\d+\.?\d*|\.\d+)([eE][-+]?\d+)?$", tok):
